@@ -35,7 +35,7 @@ from . import core, devices
 # candidate repairs (exact change test for the applied potential; terminal value re-imposed
 # after the Euler step).  Which one the tree under test implements is decided by TLC
 # (trace validation under both), and that mechanism is then model-checked.
-CODE = dict(MMemoLpsi=False, MMask=True, MBothHalves=True, MFreshLinks=True, MFixPsi=True, MFixFlag="at_use", MSkipEqual=False)
+CODE = dict(MUnitDirs=False, MMemoLpsi=False, MMask=True, MBothHalves=True, MFreshLinks=True, MFixPsi=True, MFixFlag="at_use", MSkipEqual=False)
 PINNED = dict(MTrigger="prev_close", MReimpose="never", MReimposeOnRetry=True, **CODE)
 REPAIRED = dict(MTrigger="exact", MReimpose="configured", MReimposeOnRetry=True, **CODE)
 
@@ -124,17 +124,54 @@ def exact_mesh(tdgl, d):
         dirs[e] = [(ln[e], 0.0), (0.0, -ln[e]), (-ln[e], 0.0), (0.0, ln[e])][e % 4]
     sites = np.array([[float(i), float((i * i) % 5)] for i in range(n)])
     em = EdgeMesh(centers=np.zeros((len(edges), 2)), edges=edges, boundary_edge_indices=np.arange(0),
-                  directions=dirs, edge_lengths=ln, dual_edge_lengths=w * ln)
+                  directions=dirs.copy(), edge_lengths=ln.copy(), dual_edge_lengths=w * ln)
     mesh = Mesh(sites=sites, elements=np.zeros((0, 3), dtype=np.int64), boundary_indices=np.arange(n),
                 areas=np.array(d["area"], dtype=float), dual_sites=np.zeros((0, 2)), edge_mesh=em)
-    return mesh
+    return mesh, dirs           # dirs: the edge vectors as the harness specified them (never read back from the mesh)
 
 
-def potential_for(mesh, qv):
-    """A per-edge vector potential with A . e = q * pi / 2 on every edge."""
-    d = mesh.edge_mesh.directions
+def potential_for(dirs, qv):
+    """A per-edge vector potential with A . e = q * pi / 2 on every edge; e: the edge vectors the HARNESS specified."""
+    d = np.asarray(dirs, dtype=float)
     q = np.asarray(qv, dtype=float)
     return (q * (np.pi / 2) / np.einsum("ij,ij->i", d, d))[:, None] * d
+
+
+def reference_operators(mesh, A, fixed, fix_psi):
+    """Covariant gradient and Laplacian assembled by the harness (dense) for link exponents A (one vector per edge),
+    first principles for the link variables: U_e = exp(-i A_e . (r_j - r_i)) with the edge vector and length taken
+    from the RAW site coordinates mesh.sites (never EdgeMesh.directions / normalized_directions / edge_lengths).
+    Only the topology (edge list) and the Voronoi data (dual edge lengths, cell areas: C07's subject) are read."""
+    sites = np.asarray(mesh.sites, dtype=float)
+    em = mesh.edge_mesh
+    e0, e1 = np.asarray(em.edges)[:, 0], np.asarray(em.edges)[:, 1]
+    d = sites[e1] - sites[e0]
+    ln = np.linalg.norm(d, axis=1)
+    U = np.exp(-1j * np.einsum("ij,ij->i", np.asarray(A, dtype=float), d))
+    n, ne = len(sites), len(e0)
+    G = np.zeros((ne, n), dtype=complex)
+    G[np.arange(ne), e1] = U / ln
+    G[np.arange(ne), e0] = -1.0 / ln
+    w = np.asarray(em.dual_edge_lengths, dtype=float) / ln
+    a = np.asarray(mesh.areas, dtype=float)
+    L = np.zeros((n, n), dtype=complex)
+    np.add.at(L, (e0, e1), w * U / a[e0])
+    np.add.at(L, (e1, e0), w * np.conj(U) / a[e1])
+    np.add.at(L, (e0, e0), -w / a[e0])
+    np.add.at(L, (e1, e1), -w / a[e1])
+    if fix_psi and fixed is not None and len(fixed):
+        f = np.asarray(fixed, dtype=int)
+        L[f, :] = 0
+        L[f, f] = 1
+    return G, L
+
+
+def _matches_reference(ops, A):
+    """held psi_gradient / psi_laplacian == reference (relative 1e-9: different order of the same arithmetic gives
+    1e-16; a wrong link phase gives 1e-2 or more)"""
+    G, L = reference_operators(ops.mesh, A, ops.fixed_sites, ops.fix_psi)
+    hg, hl = _dense(ops.psi_gradient), _dense(ops.psi_laplacian)
+    return bool(np.max(np.abs(hg - G)) <= 1e-9 * np.max(np.abs(G)) and np.max(np.abs(hl - L)) <= 1e-9 * np.max(np.abs(L)))
 
 
 def _dense(m):
@@ -194,6 +231,8 @@ def _ops_event(tdgl, ops, A, qid, fixed, first, form="fresh", scale_lap=None, sc
           "lap_eq": bool(np.array_equal(L, _dense(fresh.psi_laplacian))),
           "grad_eq": bool(np.array_equal(G, _dense(fresh.psi_gradient))),
           "pinrows": cls, "other": other, "lap": [], "grad": []}
+    if scale_lap is None:
+        ev["ref_eq"] = _matches_reference(ops, A)       # generated mesh: raw coordinates are meaningful
     if scale_lap is not None:
         ev["lap"] = _quantise(L, scale_lap)
         ev["grad"] = _quantise(G, scale_grad)
@@ -208,9 +247,9 @@ def replay_ops(tdgl, a, tmp):
     from tdgl.solver.options import SparseSolver
 
     d = a["inst"]
-    mesh = exact_mesh(tdgl, d)
+    mesh, dirs = exact_mesh(tdgl, d)
     fixed = np.array(a["fixed"], dtype=np.int64)
-    pots = {int(k): potential_for(mesh, v) for k, v in a["qvs"].items()}
+    pots = {int(k): potential_for(dirs, v) for k, v in a["qvs"].items()}
     out = []
     for seq in a["seqs"]:
         ops = MeshOperators(mesh, SparseSolver.SUPERLU, fixed_sites=fixed, fix_psi=a["fixpsi"])
@@ -257,7 +296,7 @@ def replay_ops_generated(tdgl, a, tmp):
     dev = devices.make(tdgl, a.get("dev", "bar"))
     mesh = dev.mesh
     em = mesh.edge_mesh
-    terms = terminal_site_oracle(dev)[0]
+    terms = terminal_site_oracle(dev, [rect_corners(r) for r in terminal_rects(a.get("dev", "bar")).values()])[0]
     rng = np.random.default_rng(a.get("seed", 0))
     x, y = em.centers[:, 0], em.centers[:, 1]
 
@@ -324,16 +363,123 @@ def _term_class(psi, sites, v):
     return "eq" if float(np.max(np.abs(vals - v))) <= 1e-12 else "drift"
 
 
-def terminal_site_oracle(dev):
-    """Geometric, independent classification of the mesh sites with respect to the current terminals
-    (does not use Device.terminal_info(), Device.points or Polygon.contains_points):
-    a site belongs to a terminal iff it is a BOUNDARY site of the triangulation (an end point of an edge that
-    occurs in exactly one triangle of mesh.elements) and its physical position mesh.sites * xi lies in the
-    terminal polygon.  Sites within `tol` of the polygon's outline are AMBIGUOUS (on-the-edge membership is a
-    matter of convention) and are constrained by nothing.
-    Returns (inside, outside): index arrays of the sites that must be pinned / must never be pinned."""
+# --------------------------------------------------------------------------- devices specified by the harness
+# Geometry the HARNESS specifies with plain numbers (rectangles by their corner coordinates), so that the oracle
+# for "which sites belong to a terminal" never reads geometry back from the package (Device.terminals,
+# Polygon.points, Device.terminal_info(), Device.points).  W x H film centred at the origin, in length units.
+
+FILM_W, FILM_H = 5.0, 3.0
+
+
+def terminal_rects(kind, W=FILM_W, H=FILM_H):
+    """name -> (x0, x1, y0, y1): the numbers harness/devices.py passes to tdgl.geometry.box for each kind."""
+    r = {}
+    if kind in ("bar", "barhole", "tee", "cross"):
+        r["source"] = (-W / 2 - 0.05, -W / 2 + 0.05, -H / 2, H / 2)
+        r["drain"] = (W / 2 - 0.05, W / 2 + 0.05, -H / 2, H / 2)
+    if kind in ("tee", "cross"):
+        r["top"] = (-0.75, 0.75, H / 2 - 0.05, H / 2 + 0.05)
+    if kind == "cross":
+        r["bottom"] = (0.3 - 0.75, 0.3 + 0.75, -H / 2 - 0.05, -H / 2 + 0.05)
+    return r
+
+
+def rect_corners(rect, order="ccw"):
+    x0, x1, y0, y1 = rect
+    c = np.array([[x0, y0], [x1, y0], [x1, y1], [x0, y1]], dtype=float)
+    return c if order == "ccw" else c[::-1].copy()
+
+
+def transform_points(pts, transform):
+    """The harness's own arithmetic for Device.scale / rotate / translate (documented semantics: scale by
+    (xfact, yfact) about the origin, rotate counterclockwise by `degrees` about the origin, translate by (dx, dy))."""
+    pts = np.array(pts, dtype=float, copy=True)
+    for op, arg in transform or []:
+        if op == "scale":
+            pts = pts * np.array([arg[0], arg[1]], dtype=float)
+        elif op == "rotate":
+            t = np.deg2rad(arg)
+            c, s_ = np.cos(t), np.sin(t)
+            pts = np.stack([c * pts[:, 0] - s_ * pts[:, 1], s_ * pts[:, 0] + c * pts[:, 1]], axis=1)
+        elif op == "translate":
+            pts = pts + np.array([arg[0], arg[1]], dtype=float)
+        else:
+            raise ValueError(op)
+    return pts
+
+
+def spec_device(tdgl, a):
+    """Build the device of a natural run.  Returns (device, [expected terminal polygons as corner arrays, in the
+    final coordinates, computed by the harness]).
+    a['dev']: kind; a['xi']; a['mel']; a['terminal_form']: how the terminal Polygons are handed to the package:
+    'box' (tdgl.geometry.box, many points), 'ccw' / 'cw' (the four corners, either orientation, ring not closed),
+    'closed' (five points: first corner repeated); a['transform']: list of ('scale', (fx, fy)) | ('rotate', deg) |
+    ('translate', (dx, dy)) applied with Device.scale/rotate/translate BEFORE meshing."""
+    kind = a.get("dev", "bar")
+    rects = terminal_rects(kind)
+    form = a.get("terminal_form", "box")
+    transform = a.get("transform")
+    if form == "box" and not transform:
+        dev = devices.make(tdgl, kind, mel=a.get("mel", 0.8), xi=a.get("xi", 1.0))
+    else:
+        from tdgl.geometry import box, circle
+
+        xi = a.get("xi", 1.0)
+        layer = tdgl.Layer(coherence_length=xi, london_lambda=2.0, thickness=0.1, gamma=10.0)
+        film = tdgl.Polygon("film", points=box(FILM_W, FILM_H, points=48))
+        holes = [tdgl.Polygon("hole", points=circle(0.6, points=16, center=(0.2, 0.1)))] if kind == "barhole" else []
+        terms = []
+        for name, rect in rects.items():
+            if form == "box":
+                x0, x1, y0, y1 = rect
+                pts = box(x1 - x0, y1 - y0, center=((x0 + x1) / 2, (y0 + y1) / 2))
+            elif form in ("ccw", "cw"):
+                pts = rect_corners(rect, form)
+            elif form == "closed":
+                c = rect_corners(rect, "ccw")
+                pts = np.vstack([c, c[:1]])
+            else:
+                raise ValueError(form)
+            terms.append(tdgl.Polygon(name, points=pts))
+        dev = tdgl.Device(kind, layer=layer, film=film, holes=holes, terminals=terms,
+                          probe_points=[(-1.5, 0.0), (1.5, 0.0)], length_units="um")
+        for op, arg in transform or []:
+            if op == "scale":
+                dev = dev.scale(xfact=arg[0], yfact=arg[1])
+            elif op == "rotate":
+                dev = dev.rotate(arg)
+            elif op == "translate":
+                dev = dev.translate(dx=arg[0], dy=arg[1])
+        dev.make_mesh(max_edge_length=a.get("mel", 0.8), smooth=0)
+    polys = [transform_points(rect_corners(r), transform) for r in rects.values()]
+    return dev, polys
+
+
+def _in_polygon(pts, poly):
+    """Even-odd ray casting (own implementation), poly: (n, 2) corners, not closed."""
+    x, y = pts[:, 0], pts[:, 1]
+    inside = np.zeros(len(pts), dtype=bool)
+    n = len(poly)
+    for k in range(n):
+        (x0, y0), (x1, y1) = poly[k], poly[(k + 1) % n]
+        if y0 == y1:
+            continue
+        cond = (y0 > y) != (y1 > y)
+        xint = x0 + (y - y0) * (x1 - x0) / (y1 - y0)
+        inside ^= cond & (x < xint)
+    return inside
+
+
+def terminal_site_oracle(dev, polys):
+    """Geometric, independent classification of the mesh sites with respect to the current terminals.  Uses only
+    mesh.sites, mesh.elements, the coherence length and `polys`: the terminal polygons as the HARNESS specified
+    them (corner coordinates, transformed by the harness's own arithmetic for derived devices) - never
+    Device.terminals / Polygon.points / Polygon.contains_points / Device.terminal_info() / Device.points.
+    A site belongs to a terminal iff it is a BOUNDARY site of the triangulation (an end point of an edge that
+    occurs in exactly one triangle) and its physical position mesh.sites * xi lies in a terminal polygon.  Sites
+    within `tol` of a polygon's outline are AMBIGUOUS (on-the-edge membership is a matter of convention) and are
+    constrained by nothing.  Returns (inside, outside): sites that must be pinned / must never be pinned."""
     from collections import Counter
-    from matplotlib.path import Path as MplPath
 
     mesh = dev.mesh
     xi = float(dev.layer.coherence_length)
@@ -351,18 +497,16 @@ def terminal_site_oracle(dev):
     tol = 1e-6 * scale
     inside = np.zeros(len(pts), dtype=bool)
     ambiguous = np.zeros(len(pts), dtype=bool)
-    for term in dev.terminals:
-        poly = np.asarray(term.points, dtype=float)
-        if not np.allclose(poly[0], poly[-1]):
-            poly = np.vstack([poly, poly[:1]])
-        # distance of every site to the outline (segment by segment)
+    for poly in polys:
+        poly = np.asarray(poly, dtype=float)
+        ring = np.vstack([poly, poly[:1]])
         d = np.full(len(pts), np.inf)
-        for p, q in zip(poly[:-1], poly[1:]):
+        for p, q in zip(ring[:-1], ring[1:]):
             pq = q - p
             L2 = float(pq @ pq)
             t = np.clip(((pts - p) @ pq) / L2, 0.0, 1.0) if L2 > 0 else np.zeros(len(pts))
             d = np.minimum(d, np.linalg.norm(pts - (p + t[:, None] * pq), axis=1))
-        inn = MplPath(poly).contains_points(pts)
+        inn = _in_polygon(pts, poly)
         near = d <= tol
         inside |= bnd & inn & ~near
         ambiguous |= bnd & near
@@ -386,7 +530,7 @@ def natural_run(tdgl, a, tmp):
     from tdgl.finite_volume.operators import MeshOperators
     from tdgl.solver.solver import TDGLSolver
 
-    dev = devices.make(tdgl, a.get("dev", "bar"), mel=a.get("mel", 0.8), xi=a.get("xi", 1.0))
+    dev, term_polys = spec_device(tdgl, a)
     remeshed = None
     if a.get("remesh"):
         # mesh-refinement loop on ONE Device object: mesh, look at it, mesh again (finer), then solve
@@ -400,7 +544,7 @@ def natural_run(tdgl, a, tmp):
         for mel in a["remesh"]:
             dev.make_mesh(max_edge_length=mel, smooth=0)
             _ = dev.points, dev.terminal_info()        # what a refinement loop looks at between two meshings
-            counts.append((len(dev.mesh.sites), len(terminal_site_oracle(dev)[0])))
+            counts.append((len(dev.mesh.sites), len(terminal_site_oracle(dev, term_polys)[0])))
         remeshed = counts
     v = _parse_psi(a.get("terminal_psi", [0.0, 0.0]))
     dt = a.get("dt", 2.0 ** -6)
@@ -436,8 +580,8 @@ def natural_run(tdgl, a, tmp):
     else:
         raise ValueError(form)
     # the terminal site set is decided geometrically and independently of Device.terminal_info() / Device.points
-    tsites, nonterm = terminal_site_oracle(dev)
-    has_terminals = len(dev.terminals) > 0
+    tsites, nonterm = terminal_site_oracle(dev, term_polys)
+    has_terminals = len(term_polys) > 0
     # ... and, alongside, the documented API: the sites Device.terminal_info() names (C06 anchors: observe_at) must be
     # exactly the pinned ones - the two definitions are checked independently of each other
     _ti = dev.terminal_info()
@@ -492,6 +636,7 @@ def natural_run(tdgl, a, tmp):
         eq = bool(np.array_equal(L, _dense(fresh.psi_laplacian))
                   and np.array_equal(_dense(ops.psi_gradient), _dense(fresh.psi_gradient)))
         cls, other, exact = _pin_flags(L, tsites, nonterm, expected=(api_sites if v is not None else []))
+        st["ref"] = _matches_reference(ops, A)
         return eq, cls, other, exact
 
     def latest_total():
@@ -506,7 +651,7 @@ def natural_run(tdgl, a, tmp):
         ops = self.operators
         eq, cls, other, exact = ops_flags(ops, st["applied"])
         ev.append({"ev": "ctor", "fresh": bool(eq and np.array_equal(np.asarray(ops.link_exponents), st["applied"])),
-                   "pinrows": cls, "other": other, "rowsexact": exact,
+                   "pinrows": cls, "other": other, "rowsexact": exact, "ref": st["ref"],
                    "term": seed_cls if seed_cls is not None else _term_class(self.psi_init, tsites, v)})
         st["psi0"] = psi_start if psi_start is not None else np.array(self.psi_init, copy=True)
         st["psi_prev"] = st["psi0"]
@@ -535,7 +680,7 @@ def natural_run(tdgl, a, tmp):
         ind = st["induced"] if st["induced"] is not None else 0.0
         ev.append({"ev": "links", "arg_applied": bool(np.array_equal(arg, st["applied"])),
                    "arg_total": bool(np.array_equal(arg, st["applied"] + ind)),
-                   "eq": eq, "pinrows": cls, "other": other, "rowsexact": exact})
+                   "eq": eq, "ref": st["ref"], "pinrows": cls, "other": other, "rowsexact": exact})
 
     def w_euler(self, step, psi, abs_sq_psi, mu, epsilon, dt_):
         ops = self.operators
@@ -548,7 +693,7 @@ def natural_run(tdgl, a, tmp):
             st["max_stale"] = max(st["max_stale"], stale)
             if st["first_stale"] is None:
                 st["first_stale"] = st["step"]
-        st["pending"] = {"fresh": bool(eq and link_eq), "pinrows": cls, "other": other, "rowsexact": exact}
+        st["pending"] = {"fresh": bool(eq and link_eq), "ref": st["ref"], "pinrows": cls, "other": other, "rowsexact": exact}
         before = st["refusals"]
         res = orig["euler"](self, step, psi, abs_sq_psi, mu, epsilon, dt_)
         # retried: some evaluation of |psi|^2 was refused (returned None) before the step was accepted
@@ -630,7 +775,7 @@ def natural_run(tdgl, a, tmp):
     MeshOperators.set_link_exponents = w_links
     TDGLSolver.solve_for_psi_squared = staticmethod(w_solve)
     cwd = os.getcwd()
-    aborted = None
+    aborted = raised = None
     try:
         os.chdir(work)
         try:
@@ -641,6 +786,10 @@ def natural_run(tdgl, a, tmp):
             if "failed to converge" not in str(e):
                 raise
             aborted = str(e)[:200]
+        except ValueError as e:
+            # the code refuses a device / configuration the harness specified as valid: recorded as an event that no
+            # action of the specification accepts ("the code raised where the model continues", DESIGN.md 2.2)
+            raised = f"{type(e).__name__}: {e}"[:300]
     finally:
         os.chdir(cwd)
         TDGLSolver.__init__ = orig["init"]
@@ -655,6 +804,17 @@ def natural_run(tdgl, a, tmp):
         raise RuntimeError(st["unreadable"])
     if aborted:
         return dict(aborted=aborted, info=dict(input=a))
+    if raised:
+        vc = _psi_class(v)
+        md = "none" if not has_terminals else ("disabled" if v is None else "terminals")
+        return dict(level="step", inst="fan5", mode=md, scr=bool(opts.include_screening), dyn=ramp is not None,
+                    v=("zero" if md == "none" else vc), seed="configured", form=form, v0=vc, exact=False, driven=True,
+                    ev=ev + [{"ev": "raised", "error": raised}],
+                    info=dict(sites=nsites, terminal_sites=int(len(tsites)), xi=float(dev.layer.coherence_length), remeshed=remeshed,
+                              steps=0, frames=0, retried_steps=0, seeded=False, raised=raised, max_terminal_deviation_after_update=0.0,
+                              max_terminal_deviation_after_retried_update=0.0, max_terminal_deviation_in_frames=0.0,
+                              max_step_mismatch=0.0, later_iterations_with_new_induced=0, max_relative_staleness=0.0,
+                              first_stale_step=None, input=a))
     # saved frames (read with h5py, not through Solution)
     classes, worst = [], 0.0
     with h5py.File(out, "r") as f:
@@ -829,7 +989,7 @@ def in_parallel(thunks):
 
 OPS_MUTANTS = (("MMask", "FixedRowsAreIdentity"), ("MBothHalves", "RefreshEqualsRebuild"),
                ("MFreshLinks", "RefreshEqualsRebuild"), ("MFixPsi", "NoOtherRowPinned"),
-               ("MSkipEqual", "RefreshEqualsRebuild"))
+               ("MSkipEqual", "RefreshEqualsRebuild"), ("MUnitDirs", "RefreshEqualsRebuild"))
 
 
 def ops_level(ctx, pid, invariants, rnd, nsample, mutants=None, short=4):
